@@ -4,6 +4,7 @@ import Driver.Topo
 import Driver.CpuKinds
 import Driver.MemAttrs
 import Driver.TypeStr
+import Driver.History
 open Driver
 
 def main (args : List String) : IO UInt32 := do
@@ -27,6 +28,9 @@ def main (args : List String) : IO UInt32 := do
     return 0
   | ["typestr"] =>
     lineLoop stdin stdout TypeStrEng.init TypeStrEng.step
+    return 0
+  | ["history"] =>
+    lineLoop stdin stdout ({} : HistoryEng.St) HistoryEng.step
     return 0
   | _ =>
     IO.eprintln "usage: hwmodel <engine>"
